@@ -91,3 +91,8 @@ Example C18_input_exact_nonvacuous :
   ~ (forall s, In s sd_prog -> ~ pos_head_atom ("p", 1) s).
 Proof. exact input_exact_nonvacuous_proof. Qed.
 Print Assumptions C18_input_exact_nonvacuous.
+
+(* the open part (all - derivable) of auto_detect_input is sorted *)
+Theorem C18_input_open_part_sorted : forall P, psorted (fst (auto_detect_input_parts P)).
+Proof. exact input_open_part_sorted_proof. Qed.
+Print Assumptions C18_input_open_part_sorted.
